@@ -18,6 +18,7 @@ import (
 	"github.com/tidwall/redcon"
 	"github.com/tidwall/resp"
 	"github.com/tidwall/tile38/internal/log"
+	"github.com/tidwall/tile38/internal/verifhook"
 )
 
 type errAOFHook struct {
@@ -126,6 +127,7 @@ func commandErrIsFatal(err error) bool {
 // fsync the file.
 func (s *Server) flushAOF(sync bool) {
 	if len(s.aofbuf) > 0 {
+		verifhook.Point(s.dir, "aof-write", 0)
 		_, err := s.aof.Write(s.aofbuf)
 		if err != nil {
 			panic(err)
